@@ -1,5 +1,4 @@
 import DaskModel.Model.BagShuffle
-import Mathlib.Tactic.Ring
 /-! Helper lemmas for C48: base-`k` digit arithmetic and the stage invariants of `groupby_tasks`. -/
 namespace Dask.BagShuffle
 
@@ -17,11 +16,13 @@ include hP hk
 
 /-- the value with digit `v` put at weight `P`: low part, the digit, high part -/
 theorem low_of_compose (A v r : Nat) (hr : r < P) : (A * (P * k) + v * P + r) % P = r := by
-  have : A * (P * k) + v * P + r = r + P * (A * k + v) := by ring
+  have : A * (P * k) + v * P + r = r + P * (A * k + v) := by
+    rw [Nat.mul_add, Nat.mul_left_comm P A k, Nat.mul_comm P v]; omega
   rw [this, Nat.add_mul_mod_self_left, Nat.mod_eq_of_lt hr]
 
 theorem div_of_compose (A v r : Nat) (hr : r < P) : (A * (P * k) + v * P + r) / P = A * k + v := by
-  have : A * (P * k) + v * P + r = r + P * (A * k + v) := by ring
+  have : A * (P * k) + v * P + r = r + P * (A * k + v) := by
+    rw [Nat.mul_add, Nat.mul_left_comm P A k, Nat.mul_comm P v]; omega
   rw [this, Nat.add_mul_div_left _ _ hP, Nat.div_eq_of_lt hr]; omega
 
 theorem high_of_compose (A v r : Nat) (hr : r < P) (hv : v < k) : (A * (P * k) + v * P + r) / (P * k) = A := by
